@@ -478,8 +478,13 @@ def implies(a, b):
 
 # ---------------------------------------------------------------------------- base text generator
 def gen_geom_items(rng, depth, cells=True, cap=60):
-    """-> list of token texts, grammar expr/term/factor with redundant parentheses"""
+    """-> list of token texts, grammar expr/term/factor with redundant parentheses; at most about cap tokens (a
+    budget of leaves: when it is used up every factor is a leaf and no operand is added, so deep nesting stays
+    possible without the size exploding)"""
+    budget = [max(1, cap // 2)]
+
     def leaf():
+        budget[0] -= 1
         if cells and rng.random() < 0.1:
             return ["#%d" % rng.randint(1, N_CELL)]
         s = rng.randint(1, N_SURF)
@@ -488,7 +493,7 @@ def gen_geom_items(rng, depth, cells=True, cap=60):
 
     def fact(d):
         r = rng.random()
-        if d <= 0 or r < 0.5:
+        if d <= 0 or r < 0.5 or budget[0] <= 0:
             return leaf()
         if r < 0.85:
             return ["("] + expr(d - 1) + [")"]
@@ -497,16 +502,21 @@ def gen_geom_items(rng, depth, cells=True, cap=60):
     def term(d):
         it = fact(d)
         for _ in range(rng.choice([0, 0, 1, 1, 2, 3])):
+            if budget[0] <= 0:
+                break
             it = it + fact(d)
         return it
 
     def expr(d):
         it = term(d)
         for _ in range(rng.choice([0, 0, 0, 1, 1, 2])):
+            if budget[0] <= 0:
+                break
             it = it + [":"] + term(d)
         return it
 
     for _ in range(50):
+        budget[0] = max(1, cap // 2)
         it = expr(depth)
         if len(it) <= cap:
             return it
@@ -848,7 +858,7 @@ def make_case(rng, stream, boost=0):
 def model_streams():
     """streams whose cases are also run through the model (shortcut tokens are outside the model)"""
     return ("scratch", "scratch-setters", "unedited", "edited", "edited-setters", "glued-setters", "layout-setters",
-            "corpus")
+            "deep", "corpus")
 
 
 def in_model(case):
